@@ -702,12 +702,15 @@ func bounds1(t *Term) (lo, hi *big.Int) {
 		}
 		return
 	case "seq.len":
-		return big.NewInt(0), nil
+		return big.NewInt(0), MaxLen
 	case "app":
 		return t.Lo, t.Hi
 	}
 	return t.Lo, t.Hi
 }
+
+// MaxLen: modelling assumption -- every sequence (Go slice, string, ghost history) has a length that fits in int.
+var MaxLen = new(big.Int).Sub(new(big.Int).Lsh(big.NewInt(1), 63), big.NewInt(1))
 
 // WithRange returns t annotated (for non-interned info we keep a side table).
 var rangeFacts = map[int][2]*big.Int{}
@@ -1312,6 +1315,8 @@ func (s *Script) Render() string {
 			lo, hi = t.Lo, t.Hi
 		} else if rf, ok := rangeFacts[t.id]; ok && !containsBound(t, bound, memo) {
 			lo, hi = rf[0], rf[1]
+		} else if t.Op == "seq.len" && !containsBound(t, bound, memo) {
+			lo, hi = nil, MaxLen
 		} else {
 			continue
 		}
